@@ -768,6 +768,15 @@ func (s *BaseNodeService) processMessage(message storage.Message) (*types.Operat
 		return nil, fmt.Errorf("failed to get FSMRequestFromMessage:  %w", err)
 	}
 
+	// a participant may only speak for itself: the participant named in the
+	// request must be the one registered for the (verified) sender
+	if participantID, ok := requestParticipantID(fsmReq); ok {
+		senderID, err := fsmInstance.GetIDByUsername(message.SenderAddr)
+		if err != nil || senderID != participantID {
+			return nil, fmt.Errorf("message from %s speaks for participant %d", message.SenderAddr, participantID)
+		}
+	}
+
 	resp, fsmDump, err := fsmInstance.Do(fsm.Event(message.Event), fsmReq)
 	if err != nil {
 		return nil, fmt.Errorf("failed to Do operation in FSM: %w", err)
@@ -871,6 +880,31 @@ func (s *BaseNodeService) processMessage(message storage.Message) (*types.Operat
 	}
 
 	return operation, nil
+}
+
+// requestParticipantID returns the participant a request speaks for, if it names one
+func requestParticipantID(req interface{}) (int, bool) {
+	switch r := req.(type) {
+	case requests.SignatureProposalParticipantRequest:
+		return r.ParticipantId, true
+	case requests.DKGProposalCommitConfirmationRequest:
+		return r.ParticipantId, true
+	case requests.DKGProposalDealConfirmationRequest:
+		return r.ParticipantId, true
+	case requests.DKGProposalResponseConfirmationRequest:
+		return r.ParticipantId, true
+	case requests.DKGProposalMasterKeyConfirmationRequest:
+		return r.ParticipantId, true
+	case requests.DKGProposalConfirmationErrorRequest:
+		return r.ParticipantId, true
+	case requests.SignatureProposalConfirmationErrorRequest:
+		return r.ParticipantId, true
+	case requests.SigningBatchProposalStartRequest:
+		return r.ParticipantId, true
+	case requests.SigningProposalBatchPartialSignRequests:
+		return r.ParticipantId, true
+	}
+	return 0, false
 }
 
 func (s *BaseNodeService) broadcastReconstructedSignatures(message storage.Message, sigs []fsmtypes.ReconstructedSignature) error {
